@@ -68,7 +68,20 @@ def _late_start():
     return m, [(0, 2000), (0, 600)], [1500.0, 100.0], 2.0, 8.0
 
 
-SCENARIOS = {"states-declared-as-ODEVariable": _odevariable_states, "unlimited-state-before-limited": _unlimited_before_limited,
+def _declaration_reused():
+    """one declaration list (and parameter list) used for two models: the second model has the declared limits as well"""
+    import pg
+    decl = [("A", (0, None)), ("X", (0, 6))]
+    pars = ["k", "g"]
+    mk = lambda: pg.model(state=decl, param=pars,
+                          event=[pg.Event(rate="k*A", transition_list=[pg.Transition(origin="A", destination="X", transition_type="T")])])
+    mk()
+    m = mk()
+    m.parameters = [("k", 1.0), ("g", 2.0)]
+    return m, [(0, None), (0, 6)], [20.0, 0.0], 0.0, 6.0
+
+
+SCENARIOS = {"declaration-list-used-twice": _declaration_reused, "states-declared-as-ODEVariable": _odevariable_states, "unlimited-state-before-limited": _unlimited_before_limited,
              "all-states-added-after-construction": _all_states_added_later, "state-added-after-construction": _extended, "state-added-after-construction/upper": _extended_upper,
              "grid-before-initial-time": _late_start}
 
